@@ -1,6 +1,7 @@
 package util
 
 import (
+	"io"
 	"os"
 	"path/filepath"
 	"sort"
@@ -79,9 +80,28 @@ func WriteFileAt(dir *os.File, filename string, data []byte, perm os.FileMode) e
 		return oerr
 	}
 	verifKillPoint("after-open", filename)
-	_, werr := unix.Write(fd, data)
+	// write(2) may write less than requested without an error, e.g. when the disk or a size limit is about to be hit
+	var werr error
+	for written := 0; written < len(data) && werr == nil; {
+		var n int
+		n, werr = unix.Write(fd, data[written:])
+		switch {
+		case werr == unix.EINTR:
+			werr = nil
+		case werr == nil && n <= 0:
+			werr = io.ErrShortWrite
+		case werr == nil:
+			written += n
+		}
+	}
 	verifKillPoint("after-write", filename)
-	unix.Close(fd)
+	if cerr := unix.Close(fd); werr == nil {
+		werr = cerr
+	}
 	verifKillPoint("after-close", filename)
+	if werr != nil {
+		// don't leave an incomplete file behind: it would be taken for a valid one later
+		_ = unix.Unlinkat(int(dir.Fd()), filename, 0)
+	}
 	return werr
 }
